@@ -158,6 +158,8 @@ class _Normalizer:
                 self._field_class_cache = None      # helpers are inlined by now: factories have become constructor calls
                 self._each_function(m, self._inline_properties)
             self._each_function(m, self._fold_function)
+            self._each_function(m, self._table_dispatch)
+            self._each_function(m, self._prune_constant_tests)
             self._each_function(m, self._data_driven)
             self._each_function(m, self._display_algebra)
             self._each_function(m, self._desugar_function)
@@ -165,6 +167,173 @@ class _Normalizer:
             self._each_function(m, self._positional_calls)
             self._each_function(m, self._truth_contexts)
 
+
+
+    # ------------------------------------------------------------------ 9c. look-ups in constant tables
+    DISPATCH_REST_MAX = 8
+
+    def _table_dispatch(self, fnode, cls, local):
+        """``x = TABLE.get(k[, D])`` / ``x = TABLE[k]`` on a module-level dict display nothing writes to, followed by a few
+        statements that use ``x``, reads as the ``if k == K1: .. elif k == K2: ..`` chain the table stands for -- the statements
+        after the look-up are repeated in every arm with the row's value in place of ``x`` (a lambda that is only called or
+        tested against None is applied / decided on the spot).  ``TABLE[k]`` ends in ``raise KeyError(k)``."""
+        me = self
+
+        def table_of(e):
+            if isinstance(e, ast.Name) and e.id in local:
+                return None
+            try:
+                r = me.repo.resolve_expr(e, me.m) if not isinstance(e, ast.Name) else me.repo.resolve_name(e.id, me.m)
+            except Exception:
+                return None
+            if not (isinstance(r, tuple) and r and r[0] == 'assign'):
+                return None
+            mod, name = r[1], r[2]
+            from .oracles.inventory import NAMES
+            if '%s:%s' % (mod.name, name) in NAMES:
+                return None      # the tables of the pinned tree are what the rules talk about: they keep their shape
+            vals = mod.assigns.get(name, [])
+            if len(vals) != 1 or not isinstance(vals[0], ast.Dict) or me.repo.table_writers(mod.name, name) \
+                    or (mod is me.m and name in me.globals_rebound):
+                return None
+            d = vals[0]
+            if not d.keys or len(d.keys) > me.UNROLL_MAX or any(k is None for k in d.keys):
+                return None
+            if not all(isinstance(k, ast.Constant) or (_is_simple(k) and not isinstance(k, ast.Name)) or
+                       (mod is me.m and _is_simple(k)) for k in d.keys):
+                return None
+            if mod is not me.m:
+                # names in the rows are the other module's: only rows of constants travel
+                if not all(_is_const_display(k) for k in d.keys) or not all(_is_const_display(v) for v in d.values):
+                    return None
+            if len({ast.dump(k) for k in d.keys}) != len(d.keys):
+                return None
+            return d
+
+        def row_value_ok(v):
+            if _is_const_display(v) or _is_simple(v):
+                return True
+            if isinstance(v, ast.Tuple):
+                return all(row_value_ok(x) for x in v.elts)
+            if isinstance(v, ast.Lambda):
+                a = v.args
+                if a.vararg or a.kwarg or a.kwonlyargs or a.defaults or a.posonlyargs:
+                    return False
+                ps = {x.arg for x in a.args}
+                return not any(isinstance(y, (ast.Lambda, ast.NamedExpr, ast.Yield, ast.YieldFrom, ast.Await)) for y in ast.walk(v.body)) \
+                    and not any(isinstance(y, ast.Name) and y.id in local and y.id not in ps for y in ast.walk(v.body))
+            return False
+
+        def specialise(rest, x, v):
+            """``rest`` with the local ``x`` known to be ``v``; None when a use of ``x`` cannot take the value in place"""
+            rest = copy.deepcopy(rest)
+            if any(isinstance(n, ast.Name) and n.id == x and isinstance(n.ctx, (ast.Store, ast.Del)) for st in rest for n in ast.walk(st)):
+                return None
+            if any(isinstance(n, (ast.FunctionDef, ast.Lambda, ast.ClassDef)) and any(
+                    isinstance(y, ast.Name) and y.id == x for y in ast.walk(n)) for st in rest for n in ast.walk(st)):
+                return None
+            is_none = isinstance(v, ast.Constant) and v.value is None
+            ok = [True]
+
+            class S(ast.NodeTransformer):
+                def visit_Compare(self_, n):
+                    if len(n.ops) == 1 and isinstance(n.left, ast.Name) and n.left.id == x and isinstance(n.ops[0], (ast.Is, ast.IsNot)) \
+                            and isinstance(n.comparators[0], ast.Constant) and n.comparators[0].value is None \
+                            and (is_none or isinstance(v, (ast.Lambda, ast.Tuple)) or (isinstance(v, ast.Constant) and v.value is not None)):
+                        return ast.copy_location(ast.Constant(value=(is_none == isinstance(n.ops[0], ast.Is))), n)
+                    return self_.generic_visit(n)
+
+                def visit_Call(self_, n):
+                    if isinstance(n.func, ast.Name) and n.func.id == x and isinstance(v, ast.Lambda):
+                        n.args = [self_.visit(a) for a in n.args]
+                        ps = [a.arg for a in v.args.args]
+                        if n.keywords or len(ps) != len(n.args) or not all(_is_simple_or_const(a) for a in n.args):
+                            ok[0] = False
+                            return n
+                        env = dict(zip(ps, n.args))
+
+                        class B(ast.NodeTransformer):
+                            def visit_Name(self__, y):
+                                if isinstance(y.ctx, ast.Load) and y.id in env:
+                                    return ast.copy_location(copy.deepcopy(env[y.id]), y)
+                                return y
+                        return ast.copy_location(B().visit(copy.deepcopy(v.body)), n)
+                    return self_.generic_visit(n)
+
+                def visit_Name(self_, n):
+                    if n.id == x and isinstance(n.ctx, ast.Load):
+                        if isinstance(v, ast.Lambda):
+                            ok[0] = False         # the function value escapes
+                            return n
+                        return ast.copy_location(copy.deepcopy(v), n)
+                    return n
+            out = [S().visit(st) for st in rest]
+            return out if ok[0] else None
+
+        def small(rest):
+            return len(rest) <= me.DISPATCH_REST_MAX and sum(1 for st in rest for _ in ast.walk(st)) <= 400 and not any(
+                isinstance(n, (ast.For, ast.While, ast.FunctionDef, ast.ClassDef, ast.Try, ast.With)) for st in rest for n in ast.walk(st))
+
+        def do_block(blk):
+            i = 0
+            while i < len(blk):
+                st = blk[i]
+                i += 1
+                if not (isinstance(st, ast.Assign) and len(st.targets) == 1 and isinstance(st.targets[0], ast.Name)):
+                    continue
+                x = st.targets[0].id
+                v = st.value
+                key = default = table = None
+                if isinstance(v, ast.Call) and isinstance(v.func, ast.Attribute) and v.func.attr == 'get' and 1 <= len(v.args) <= 2 \
+                        and not v.keywords:
+                    table, key = table_of(v.func.value), v.args[0]
+                    default = v.args[1] if len(v.args) == 2 else ast.Constant(value=None)
+                    if not _is_simple_or_const(default):
+                        continue
+                elif isinstance(v, ast.Subscript) and isinstance(v.ctx, ast.Load) and not isinstance(v.slice, ast.Slice):
+                    table, key = table_of(v.value), v.slice
+                if table is None or not _is_simple(key) or isinstance(key, ast.Constant):
+                    continue
+                if not all(row_value_ok(val) for val in table.values):
+                    continue
+                rest = blk[i:]
+                if not small(rest) or any(isinstance(n, ast.Name) and n.id == x for n in ast.walk(key)):
+                    continue
+                # the key expression is read once per arm test: nothing in between changes it (tests only)
+                arms = []
+                good = True
+                for k_, val in zip(table.keys, table.values):
+                    body = specialise(rest, x, val)
+                    if body is None:
+                        body = [ast.Assign(targets=[ast.Name(id=x, ctx=ast.Store())], value=copy.deepcopy(val))] + copy.deepcopy(rest)
+                        if isinstance(val, ast.Lambda):
+                            good = False
+                            break
+                    arms.append((k_, body))
+                if not good:
+                    continue
+                if default is not None:
+                    last = specialise(rest, x, default)
+                    if last is None:
+                        last = [ast.Assign(targets=[ast.Name(id=x, ctx=ast.Store())], value=default)] + copy.deepcopy(rest)
+                else:
+                    last = [ast.Raise(exc=ast.Call(func=ast.Name(id='KeyError', ctx=ast.Load()), args=[copy.deepcopy(key)], keywords=[]),
+                                      cause=None)]
+                chain = last or [ast.Pass()]
+                for k_, body in reversed(arms):
+                    chain = [ast.If(test=ast.Compare(left=copy.deepcopy(key), ops=[ast.Eq()], comparators=[copy.deepcopy(k_)]),
+                                    body=body or [ast.Pass()], orelse=chain)]
+                for n in chain:
+                    ast.copy_location(n, st)
+                    ast.fix_missing_locations(n)
+                blk[i - 1:] = chain
+                me.stats['table_dispatch'] = me.stats.get('table_dispatch', 0) + 1
+                return True
+            return False
+
+        for _round in range(4):
+            if not any(do_block(b) for b in _blocks(fnode)):
+                break
 
     # ------------------------------------------------------------------ 9b. algebra of displays
     def _display_algebra(self, fnode, cls, local):
@@ -1750,7 +1919,40 @@ class _Normalizer:
                                                ifs=[rename(c, mp) for c in g.ifs], is_async=0) for i, g in enumerate(gens)]
                     me.stats['iteration_idioms'] = me.stats.get('iteration_idioms', 0) + 1
                     return comp_loop(gens2, [store])
+            # for x in iter(callable, sentinel): the two-argument form of iter() calls until the sentinel comes back
+            if isinstance(st, ast.For) and not st.orelse and isinstance(st.iter, ast.Call) and isinstance(st.iter.func, ast.Name) \
+                    and st.iter.func.id == 'iter' and 'iter' not in local and len(st.iter.args) == 2 and not st.iter.keywords \
+                    and isinstance(st.target, ast.Name) and isinstance(st.iter.args[1], ast.Constant):
+                fn_, sent = st.iter.args
+                call = None
+                if isinstance(fn_, ast.Call) and ast.unparse(fn_.func) in ('functools.partial', 'partial') and fn_.args \
+                        and not any(k.arg is None for k in fn_.keywords) and not any(isinstance(a, ast.Starred) for a in fn_.args) \
+                        and all(_is_simple_or_const(a) for a in fn_.args) and all(_is_simple_or_const(k.value) for k in fn_.keywords):
+                    call = ast.Call(func=fn_.args[0], args=list(fn_.args[1:]), keywords=list(fn_.keywords))
+                elif isinstance(fn_, ast.Lambda) and not fn_.args.args and not fn_.args.vararg and not fn_.args.kwarg \
+                        and not fn_.args.kwonlyargs and isinstance(fn_.body, ast.Call):
+                    call = fn_.body
+                elif _is_simple(fn_):
+                    call = ast.Call(func=fn_, args=[], keywords=[])
+                # the arguments are read at every call: the body must not rebind the names they mention
+                if call is not None:
+                    names = {n.id for n in ast.walk(call) if isinstance(n, ast.Name)}
+                    rebound = any(isinstance(n, ast.Name) and isinstance(n.ctx, (ast.Store, ast.Del)) and n.id in names
+                                  for b in st.body for n in ast.walk(b))
+                    if not rebound or isinstance(fn_, ast.Lambda):
+                        x = st.target.id
+                        read = ast.Assign(targets=[ast.Name(id=x, ctx=ast.Store())], value=call)
+                        stop = ast.If(test=ast.Compare(left=ast.Name(id=x, ctx=ast.Load()), ops=[ast.Eq()], comparators=[sent]),
+                                      body=[ast.Break()], orelse=[])
+                        loop = ast.While(test=ast.Constant(value=True), body=[read, stop] + st.body, orelse=[])
+                        me.stats['iteration_idioms'] = me.stats.get('iteration_idioms', 0) + 1
+                        return [loop]
             # enumerate
+            if isinstance(st, ast.For) and isinstance(st.iter, ast.Call) and isinstance(st.iter.func, ast.Name) \
+                    and st.iter.func.id == 'enumerate' and 'enumerate' not in local and len(st.iter.args) == 1 \
+                    and len(st.iter.keywords) == 1 and st.iter.keywords[0].arg == 'start':
+                st.iter.args = [st.iter.args[0], st.iter.keywords[0].value]
+                st.iter.keywords = []
             if isinstance(st, ast.For) and isinstance(st.iter, ast.Call) and isinstance(st.iter.func, ast.Name) \
                     and st.iter.func.id == 'enumerate' and 'enumerate' not in local and 1 <= len(st.iter.args) <= 2 \
                     and not st.iter.keywords and isinstance(st.target, ast.Tuple) and len(st.target.elts) == 2 \
